@@ -157,11 +157,19 @@ def norm_of(name):
     return {"inf": np.inf, "1": 1, "2": 2}[name]
 
 
+def box_of(cfg):
+    """integration domain: [0,1]^d or a non-cubic dyadic box cfg["box"] = [a, b]"""
+    dim = cfg["dim"]
+    if cfg.get("box"):
+        return [float(x) for x in cfg["box"][0]], [float(x) for x in cfg["box"][1]]
+    return [0.0] * dim, [1.0] * dim
+
+
 def reference_of(cfg, f):
     """the reference solution handed to Integration (an INPUT of the run; need not be the true integral)"""
     import numpy as np
     dim = cfg["dim"]
-    exact = f.exact([0.0] * dim, [1.0] * dim)
+    exact = f.exact(*box_of(cfg))
     mode = cfg["ref"]
     if mode == "none":
         return None
@@ -199,7 +207,8 @@ def build(cfg, f=None, op=None):
     C = _classes()
     Integration = C["Integration"]
     dim = cfg["dim"]
-    a, b = np.zeros(dim), np.ones(dim)
+    a, b = (np.array(x, dtype=float) for x in box_of(cfg))
+    ctor = dict(cfg.get("ctor") or {})          # further constructor options of the strategy (d. option forwarding)
     if op is not None:
         f = op.f
     if f is None:
@@ -221,7 +230,7 @@ def build(cfg, f=None, op=None):
                 grid = GlobalTrapezoidalGrid(a, b, boundary=True, modified_basis=False)
             op = Integration(f, grid=grid, dim=dim, reference_solution=ref)
         eo = ErrorCalculatorSingleDimVolumeGuided()
-        sa = C["dimwise"](a, b, version=cfg.get("version", 6), operation=op, norm=norm, print_level=100, log_level=100)
+        sa = C["dimwise"](a, b, version=cfg.get("version", 6), operation=op, norm=norm, print_level=100, log_level=100, **ctor)
     else:
         if op is None:
             kind = cfg.get("grid", "trapezoidal")
@@ -235,13 +244,15 @@ def build(cfg, f=None, op=None):
                 grid = TrapezoidalGrid(a, b, boundary=True, modified_basis=False)
             op = Integration(f, grid=grid, dim=dim, reference_solution=ref)
         eo = ErrorCalculatorExtendSplit()
-        sa = C["extend_split"](a, b, version=cfg.get("version", 0), operation=op, norm=norm)
+        sa = C["extend_split"](a, b, version=cfg.get("version", 0), operation=op, norm=norm, **ctor)
         sa.log_util.set_print_level(100)
         sa.log_util.set_log_level(100)
     if cfg.get("recalc"):
         # recalculate_frequently=True (see run_kwargs) with a lowered threshold, so that refine() takes its "evaluate
         # everything again from scratch" branch after a few refined objects instead of after 100
         sa.refinements_for_recalculate = int(cfg["recalc"])
+    # the caller's own argument objects (c. argument aliasing: the implementation must not modify them)
+    sa.__dict__["_verif_args"] = {"a": a, "b": b, "ref": ref}
     return sa, eo, f
 
 
@@ -250,6 +261,8 @@ def run_kwargs(cfg):
     kw = {"recalculate_frequently": True} if cfg.get("recalc") else {}
     if cfg.get("reeval"):
         kw["reevaluate_at_end"] = True
+    if cfg.get("test_scheme"):
+        kw["test_scheme"] = True
     if cfg.get("eval_points"):
         kw["evaluation_points"] = [tuple(float(x) for x in p) for p in cfg["eval_points"]]
     return kw
@@ -264,10 +277,25 @@ def run_impl(cfg, limits, prior=None):
     Everything observed (log, the integrand's own record of distinct evaluation points) is reset between the runs, so
     that the checks speak about THIS run: its reported counts must not remember the earlier one."""
     sa, eo, f = build(cfg)
+    sibling = None
+    if prior is not None and prior["kind"] == "unrelated_sibling":
+        # b. SIBLING OBJECTS: an unrelated strategy object (own operation, own integrand, other configuration) has worked before
+        # and stays alive; nothing of it may leak into the run under test (class-level state, mutable defaults, module caches)
+        try:
+            sb, eb, _fb = build(prior["cfg"])
+            L1 = prior["limits"]
+            quiet(sb.performSpatiallyAdaptiv, 1, prior["cfg"]["lmax"], eb, tol=L1["tol"], max_evaluations=L1["max"],
+                  min_evaluations=L1["min"], print_output=False, **run_kwargs(prior["cfg"]))
+            sibling = sb
+        except Exception:  # noqa: BLE001  (the sibling's own run is not under test here)
+            sibling = None
+        prior = None
     if prior is not None:
         cfg1 = dict(cfg, strategy=prior.get("strategy", cfg["strategy"]))
         if cfg1["strategy"] != cfg["strategy"]:
             cfg1["version"] = 6 if cfg1["strategy"] == "dimwise" else 0
+            cfg1["ctor"] = {}
+            cfg1.pop("grid", None)
         L1 = prior["limits"]
         try:
             if prior["kind"] == "shared_function":
@@ -289,11 +317,11 @@ def run_impl(cfg, limits, prior=None):
         sa.__dict__["_verif_log"] = []
         f.seen = {}
         f.calls = 0
-    out = {"sa": sa, "f": f, "status": "ok", "ret": None, "exc": None}
+    kw = run_kwargs(cfg)
+    out = {"sa": sa, "f": f, "status": "ok", "ret": None, "exc": None, "kw": kw, "sibling": sibling}
     try:
         out["ret"] = quiet(sa.performSpatiallyAdaptiv, 1, cfg["lmax"], eo, tol=limits["tol"],
-                           max_evaluations=limits["max"], min_evaluations=limits["min"], print_output=False,
-                           **run_kwargs(cfg))
+                           max_evaluations=limits["max"], min_evaluations=limits["min"], print_output=False, **kw)
     except Runaway:
         out["status"] = "runaway"
     except Exception as e:  # noqa: BLE001
@@ -449,6 +477,43 @@ def returned_result_clause(viol, cfg, sa, ret, last_result, last_error, ref, pre
                                                        "returned": returned, "reference": [float(x) for x in ref]})
 
 
+def object_clauses(viol, cfg, out, ret, prefix=""):
+    """a. the returned history arrays are five DIFFERENT objects (no chained-assignment aliasing); repeated queries give the same
+    answer and leave the returned tuple alone; c. the implementation has not modified the caller's own arguments"""
+    import numpy as np
+    sa = out["sa"]
+    names = {5: "error_array", 6: "num_point_array", 7: "surplus_error_array", 8: "interpolation_error_arrayL2", 9: "interpolation_error_arrayMax"}
+    alias = [(names[i], names[j]) for i in names for j in names if i < j and ret[i] is ret[j]]
+    if alias:
+        viol(prefix + "history-arrays-alias", {"same_object": alias})
+    snap = ([float(x) for x in np.atleast_1d(ret[3])], [list(map(repr, ret[i])) for i in names], ret[4])
+    q = []
+    for _ in range(3):
+        q.append((int(sa.get_total_num_points()), [float(x) for x in np.atleast_1d(sa.operation.get_result())],
+                  int(sa.operation.get_distinct_points(sa.scheme)), len(sa.get_areas())))
+    after = ([float(x) for x in np.atleast_1d(ret[3])], [list(map(repr, ret[i])) for i in names], ret[4])
+    # (with reevaluate_at_end the final recomputation may evaluate further points after the last history entry -- extend-split
+    #  version 3 does --, so the count is compared with the last entry only without that option)
+    if q[0] != q[1] or q[1] != q[2] or snap != after or (len(ret[6]) and not cfg.get("reeval") and q[0][0] != int(ret[6][-1])) or \
+            (not cfg.get("reeval") and q[0][1] != snap[0]):
+        viol(prefix + "queries-disagree", {"three_reads (points, result, distinct points, areas)": q, "returned_points": int(ret[6][-1]) if len(ret[6]) else None,
+                                           "returned_result": snap[0], "returned_tuple_changed_by_queries": snap != after})
+    args = sa.__dict__.get("_verif_args")
+    if args is not None:
+        a0, b0 = box_of(cfg)
+        ref0 = reference_of(cfg, make_f(cfg))
+        bad = {}
+        if [float(x) for x in args["a"]] != a0 or [float(x) for x in args["b"]] != b0:
+            bad["box"] = [[float(x) for x in args["a"]], [float(x) for x in args["b"]]]
+        if (ref0 is None) != (args["ref"] is None) or (ref0 is not None and [repr(float(x)) for x in args["ref"]] != [repr(float(x)) for x in ref0]):
+            bad["reference_solution"] = None if args["ref"] is None else [float(x) for x in args["ref"]]
+        kw = out.get("kw") or {}
+        if "evaluation_points" in kw and [tuple(map(float, p)) for p in kw["evaluation_points"]] != [tuple(map(float, p)) for p in cfg["eval_points"]]:
+            bad["evaluation_points"] = [list(map(float, p)) for p in kw["evaluation_points"]]
+        if bad:
+            viol(prefix + "caller-arguments-modified", bad)
+
+
 def check_run(ctx, drv, cfg, limits, scout_stream=None, tag_extra=None, prior=None, then=None):
     """run cfg with limits on the implementation, compare with the model, evaluate the oracle.
     returns (ok, observed stream or None)"""
@@ -553,6 +618,7 @@ def check_run(ctx, drv, cfg, limits, scout_stream=None, tag_extra=None, prior=No
     ref = reference_of(cfg, out["f"])
     if n and not runaway:
         returned_result_clause(viol, cfg, sa, ret, evals[-1]["result"], stream[-1][0], ref)
+        object_clauses(viol, cfg, out, ret)
     if ref is not None:
         for i, ev in enumerate(evals[:n]):
             ex = error_formula(cfg["norm"], ref, ev["result"])
@@ -644,6 +710,17 @@ def second_call(ctx, drv, cfg, L1, then, out, stream1, scout_stream, viol, corr)
     log = sa.__dict__.setdefault("_verif_log", [])
     mark = len(log)
     ok = True
+    if then.get("toggle") == "deactivate_caching":
+        f.deactivate_caching()
+    if then.get("sibling"):
+        try:
+            sb, eb, _fb = build(then["sibling"]["cfg"])
+            Ls = then["sibling"]["limits"]
+            quiet(sb.performSpatiallyAdaptiv, 1, then["sibling"]["cfg"]["lmax"], eb, tol=Ls["tol"], max_evaluations=Ls["max"],
+                  min_evaluations=Ls["min"], print_output=False, **run_kwargs(then["sibling"]["cfg"]))
+            out["sibling2"] = sb
+        except Exception:  # noqa: BLE001  (the sibling's own run is not under test here)
+            pass
     try:
         ret = quiet(sa.continue_adaptive_refinement, tol=L2["tol"], max_evaluations=L2["max"], min_evaluations=L2["min"])
     except Runaway:
@@ -707,6 +784,10 @@ def second_call(ctx, drv, cfg, L1, then, out, stream1, scout_stream, viol, corr)
         returned_result_clause(lambda pr, d: (flag.append(1), viol(pr, d)), cfg, sa, ret, evals2[-1]["result"], stream2[-1][0], ref,
                                prefix="continue-")
         ok = ok and not flag
+    if n2:
+        flag = []
+        object_clauses(lambda pr, d: (flag.append(1), viol(pr, d)), cfg, out, ret, prefix="continue-")
+        ok = ok and not flag
     # ---- model: the stop rule of the second call takes the limits of THAT call
     own = parse_stop(drv.ask("run %s %s" % (lim_str(L2), stream_str(stream2))))
     corr("continue-stop-on-own-stream", n2 - 1, None if own is None else own["i"])
@@ -759,15 +840,61 @@ def gen_cfg(rng, thorough, strategy=None):
         cfg["grid"] = rng.choice(["trapezoidal", "trapezoidal", "trapezoidal", "gauss_legendre", "gauss_legendre", "clenshaw_curtis"])
     # recalculate_frequently=True with the threshold lowered to 1-3 refined objects: refine() re-evaluates everything
     cfg["recalc"] = rng.choice([None, None, None, 1, 2, 3])
+    # g. non-cubic boxes (dyadic ends, both signs, different widths per dimension)
+    if rng.random() < 0.3:
+        lo = [rng.choice([0.0, -1.0, 0.5, -2.0, 1.0]) for _ in range(dim)]
+        cfg["box"] = [lo, [x + rng.choice([1.0, 2.0, 0.5, 0.25]) for x in lo]]
+    # d. further constructor options of the strategy, one at a time
+    if rng.random() < 0.4:
+        if strategy == "dimwise":
+            cfg["ctor"] = rng.choice([{"rebalancing": False}, {"margin": 0.5}, {"use_volume_weighting": True}, {"chebyshev_points": True},
+                                      {"force_balanced_refinement_tree": True}, {"use_relative_surplus": True}])
+        else:
+            # (automatic_extend_split only in 2-D: in 3-D an assertion of the benefit code fails on the clean tree; reported)
+            cfg["ctor"] = rng.choice([{"automatic_extend_split": True} if dim == 2 else {"number_of_refinements_before_extend": 2},
+                                      {"split_single_dim": True}, {"number_of_refinements_before_extend": 2},
+                                      {"number_of_refinements_before_extend": 4}, {"margin_unused": None}])
+            if "margin_unused" in cfg["ctor"]:
+                cfg["ctor"] = {}
+                cfg["version"] = rng.choice([1, 2, 3])
+    if cfg.get("ctor") == {"split_single_dim": True} and cfg.get("grid") in ("gauss_legendre", "clenshaw_curtis"):
+        # clean tree, reported to the lead: with split_single_dim=True initialize_refinement() evaluates the integrand on twin/parent areas
+        # BEFORE operation.initialize() empties the point counter -- on grids whose points are not nested these evaluations are never
+        # counted (ClenshawCurtisGrid: 25 reported, 27 performed) or an assertion of the twin-error code fails (GaussLegendreGrid)
+        cfg["grid"] = "trapezoidal"
+    if cfg.get("ctor") == {"chebyshev_points": True} and cfg.get("box"):
+        # clean tree: RefinementObjectSingleDimension.map_chebyshev normalises the already normalised angle with a and b again and
+        # asserts start < mid < end on every box other than [0,1] (reported to the lead; refinement geometry, not C13's clauses)
+        cfg.pop("box")
+    # test_scheme (check_combi_scheme at the end, a debugging aid) only with the default constructor options: with split_single_dim /
+    # versions 1-3 its assertion fires on the clean tree (validity of the local combinations is C07's subject, reported there)
+    cfg["test_scheme"] = rng.random() < 0.1 and not cfg.get("ctor") and cfg.get("version") in (None, 0, 2, 3, 6) and \
+        not (strategy == "extend_split" and cfg.get("version") in (1, 2, 3))
     # reevaluate_at_end=True: the returned result is recomputed from scratch by evaluate_final_combi() after the loop
     cfg["reeval"] = rng.random() < 0.25
     # the rarely used option evaluation_points: the loop interpolates at these points after every evaluation and returns two
     # more history arrays (interpolation errors in the 2- and the max-norm)
     # (not on the Gauss-Legendre grid: it has no boundary points and the d-linear interpolation of the code does not extrapolate)
     if rng.random() < 0.25 and cfg.get("grid") != "gauss_legendre":
-        cfg["eval_points"] = [[rng.choice([0.0, 1.0, 0.5, 0.25, 0.75, 0.3, 0.7, 0.125, 0.9]) for _ in range(dim)]
+        lo, hi = box_of(cfg)
+        cfg["eval_points"] = [[lo[d] + rng.choice([0.0, 1.0, 0.5, 0.25, 0.75, 0.3, 0.7, 0.125, 0.9]) * (hi[d] - lo[d]) for d in range(dim)]
                               for _ in range(rng.randint(2, 5))]
     return cfg
+
+
+def small_sibling_cfg(rng):
+    """configuration of an unrelated sibling object (other strategy / function / box / options) that works in between"""
+    c = gen_cfg(rng, False)
+    c["dim"] = 2
+    c["lmax"] = 2
+    c["coeffs"] = [ck[:2] for ck in c["coeffs"]]
+    c["powers"] = [pk[:2] for pk in c["powers"]]
+    if c.get("box"):
+        c["box"] = [c["box"][0][:2], c["box"][1][:2]]
+    c.pop("eval_points", None)
+    if c.get("grid") == "gauss_legendre":
+        c["grid"] = "trapezoidal"
+    return c
 
 
 def gen_limits(rng, stream, k):
@@ -780,7 +907,7 @@ def gen_limits(rng, stream, k):
         if not math.isfinite(e):
             e = 1.0
         tol = rng.choice([-1.0, -1.0, -1.0, e, e, e, math.nextafter(e, -math.inf), math.nextafter(e, -math.inf),
-                          math.nextafter(e, math.inf), 0.0, 1e9])
+                          math.nextafter(e, math.inf), 0.0, 0.0, 5e-324, 1e-300, 1e9, 1e300])
         j2 = rng.randrange(n)
         p2 = stream[j2][1]
         mn = rng.choice([1, 1, 0, p2, p2, p2 + 1, p2 + 1, p2 - 1, 10 ** 6])
@@ -808,9 +935,14 @@ def run(ctx):
                 "25 % of the configurations run with reevaluate_at_end=True (returned result recomputed; the reported error must be its deviation), "
                 "25 % of the configurations pass evaluation_points (two more history arrays); 40 % of the runs are followed by "
                 "continue_adaptive_refinement with redrawn limits (tighter or looser tol, other min/max), judged by the limits of that call; "
+                "30 % non-cubic dyadic boxes; 40 % one further constructor option (rebalancing, margin, volume weighting, chebyshev points, balanced tree, "
+                "relative surplus / automatic_extend_split, split_single_dim, refinements before extend, versions 1-3); test_scheme in 10 %; unrelated "
+                "sibling objects work before a run or between two calls, deactivate_caching in the middle of a sequence; "
                 "the model must predict stop index / evaluations / refinements / array lengths from the scout stream; a case is one "
                 "(configuration, limits) run, distinct by both, non-trivial if it made at least one refinement or stopped at the first evaluation by a limit")
     drv = ctx.driver("drv_c13")
+    import adaptdriver_gen
+    adaptdriver_gen.run(ctx, drv)      # translator tie of performSpatiallyAdaptiv / continue_adaptive_refinement (see adaptdriver_gen.py)
     import_ok = _classes()
     assert import_ok
     budget = 70 if not thorough else 560
@@ -852,8 +984,11 @@ def run(ctx):
             prior = None
             if ctx.rng.random() < 0.4:
                 j = ctx.rng.randrange(len(stream))
-                prior = {"kind": ctx.rng.choice(["same_object", "new_object", "shared_function"]),
+                prior = {"kind": ctx.rng.choice(["same_object", "new_object", "shared_function", "unrelated_sibling"]),
                          "limits": {"tol": -1.0, "min": 1, "max": stream[j][1] - ctx.rng.choice([0, 1])}}
+                if prior["kind"] == "unrelated_sibling":
+                    prior["cfg"] = small_sibling_cfg(ctx.rng)
+                    prior["limits"]["max"] = min(prior["limits"]["max"], 150)
                 if prior["kind"] == "shared_function" and ctx.rng.random() < 0.5:
                     prior["strategy"] = "dimwise" if cfg["strategy"] == "extend_split" else "extend_split"
                     # (the other strategy needs far more evaluations for the point counts of a Gauss-Legendre stream)
@@ -877,6 +1012,10 @@ def run(ctx):
                 if parse_stop(drv.ask("run %s %s" % (lim_str(Lc), stream_str(stream[i1:])))) is None:
                     Lc = dict(Lc, max=stream[-1][1] - 1)
                 then = {"limits": Lc}
+                if ctx.rng.random() < 0.25:
+                    then["toggle"] = "deactivate_caching"      # l. a rarely used public toggle in the MIDDLE of the sequence
+                if ctx.rng.random() < 0.25:
+                    then["sibling"] = {"cfg": small_sibling_cfg(ctx.rng), "limits": {"tol": -1.0, "min": 1, "max": ctx.rng.choice([40, 90, 150])}}
                 ctx.count("then_continue_" + ("tighter_tol" if Lc["tol"] < L["tol"] else ("looser_tol" if Lc["tol"] > L["tol"] else "same_tol")))
             ok2, s2 = check_run(ctx, drv, cfg, L, scout_stream=None if same_obj else stream, prior=prior, then=then)
             n2 = len(s2) if s2 else 0
